@@ -651,9 +651,17 @@ def run_obligation(ob: Obligation, known=(), tier="quick"):
             if reproduced:
                 cl["verdict"] = "violated"
                 res["violations"].append(reproduced)
-            else:
+            elif last is not None and last[0] == "passed":
+                # the candidate input satisfies the clause on the real code: the solver's model is an artefact of the
+                # abstraction (uninterpreted functions, reals for floats) -- undecided, never a violation
                 cl["verdict"] = "undecided"
                 res["undecided"].append({"clause": name, "why": f"solver model did not reproduce natively ({last})", "info": a["info"][:1], "model": a["models"][:1]})
+            else:
+                # the obligation is refuted by the solver but no candidate could be replayed (havoc'd callee results, inputs
+                # that are not representable as floats): reported as a violation of the named obligation without an input
+                cl["verdict"] = "violated"
+                res["violations"].append({"clause": name, "input": None, "observed": f"obligation refuted by the solver; candidate inputs could not be replayed natively ({last})",
+                                          "solver": "z3 sat; models: " + json.dumps(a["models"][:2], default=str)[:1500] + " info: " + str(a["info"][:1])[:500]})
         elif a.get("unknown", 0):
             cl["verdict"] = "undecided"
             res["undecided"].append({"clause": name, "why": "solver returned unknown / engine limit", "info": a["info"][:2]})
